@@ -191,13 +191,15 @@ def prefixesOf (name : String) : List String :=
       String.ofList acc' :: go (q :: r) acc'
   go parts []
 
-/-- `buildAccountIndex`. -/
-def buildAccountIndex (counts : AList Nat) : AccountIndex :=
-  let names := sortedKeys counts
+/-- the loop of `buildAccountIndex` over the sorted names. -/
+def accountIndexOf (names : List String) : AccountIndex :=
   names.foldl (fun idx name =>
     { all := idx.all ++ [name],
       byPrefix := (prefixesOf name).foldl
         (fun bp p => bp.set p (bp.getD p [] ++ [name])) idx.byPrefix }) {}
+
+/-- `buildAccountIndex`. -/
+def buildAccountIndex (counts : AList Nat) : AccountIndex := accountIndexOf (sortedKeys counts)
 
 /-- `buildTagValues`. -/
 def buildTagValues (counts : AList (AList Nat)) : AList (List String) :=
